@@ -284,6 +284,7 @@ def main(run):
                 "replayed exactly over Q, and random float populations replayed bit for bit; every _randomizedSelect call with its pivot draws. "
                 "NSGA-III: the same population styles x both sorters x generated reference points (p 1..8, optional scaling, two layers), "
                 "memory variant threaded over 2..4 calls (best/worst/extreme points); 15% of the populations mix objectives of magnitude 1 and 1e6; "
+                "plus float-valued populations (discrete part, association and oracle only); "
                 "niching replayed with the recorded shuffles; association checked in binary64 "
                 "within tolerance and exactly over Q on a robust subset. Reference points: every (M,p) in 2..6 x 1..8, scalings. "
                 "A case is distinct by its full input; non-trivial = more than one individual or a non-default parameter.")
@@ -549,9 +550,9 @@ def main(run):
                     cqll(a["fits"]), cnatll(fronts), cnat(k), cqll(a["refs"]), cql(a["best"]), cql(a["icpt"]), cql(a["dist"]),
                     cnatll(nr["codes"]), cnatl(a["niches"]), cnatl(sel)), case)
 
-    def nsga3_case(memory_calls=0):
+    def nsga3_case(memory_calls=0, floats=False):
         M = rng.randint(2, 5)
-        w = gen_weights(rng, M)
+        w = gen_weights(rng, M) if not floats else [rng.choice([1.0, -1.0, -0.3, 2.5]) for _ in range(M)]
         refs, rinfo = make_refs(M)
         nd = rng.choice(["standard", "log"])
         seed = rng.getrandbits(32)
@@ -562,7 +563,16 @@ def main(run):
         for call in range(ncalls):
             n = rng.choice([1, 2, 3, 4, 5, 6, 8, 10, 12, 16]) if rng.random() < 0.8 else rng.randint(1, 24)
             style, vals = gen_values(rng, n, M)
-            if rng.random() < 0.15:
+            if floats:
+                kind = rng.random()
+                style = "floats"
+                if kind < 0.6:
+                    vals = [[rng.random() for _ in range(M)] for _ in range(n)]
+                elif kind < 0.8:
+                    vals = [[rng.choice([0.1, 0.2, 0.3, 0.7, 1e3, 1e-4, -0.1]) for _ in range(M)] for _ in range(n)]
+                else:
+                    vals = [[rng.uniform(-1e3, 1e3) for _ in range(M)] for _ in range(n)]
+            elif rng.random() < 0.15:
                 # objectives of very different magnitude (still exact integers): the ASF weights matter
                 big = [rng.random() < 0.5 for _ in range(M)]
                 vals = [[x * 10 ** 6 if bflag else x for x, bflag in zip(v, big)] for v in vals]
@@ -585,6 +595,20 @@ def main(run):
                 run.broken.append({"kind": "harness_recording", "where": ["harness/c07.py"], "log": "helper calls not recorded once"})
                 return
             check_nsga3_call(pop, k, res[1], rec.fronts[0], rec.assoc[0], rec.nich[0], case, len(refs))
+            if floats and len(rec.icpt) == 1:
+                # float populations: only the oracle (coordinatewise extremes, exact float min/max)
+                ic = rec.icpt[0]
+                frows = [[float(x) for x in r] for r in rec.assoc[0]["fits"]]
+                pb, pw = (mem_prev if selector is not None else (None, None))
+                seen = frows + ([pb] if pb is not None else [])
+                seenw = frows + ([pw] if pw is not None else [])
+                if ([float(x) for x in ic["best"]] != [min(c) for c in zip(*seen)] or
+                        [float(x) for x in ic["worst"]] != [max(c) for c in zip(*seenw)] or
+                        [float(x) for x in ic["front_worst"]] != [max(c) for c in zip(*frows)]):
+                    run.oracle_violation("selNSGA3: best/worst/front-worst point is not the coordinatewise extreme", case)
+                if selector is not None:
+                    mem_prev = ([float(x) for x in selector.best_point.reshape(-1)], [float(x) for x in selector.worst_point.reshape(-1)])
+                continue
             if len(rec.extreme) == 1 and len(rec.icpt) == 1:
                 ex, ic = rec.extreme[0], rec.icpt[0]
                 ints = lambda a: [int(x) for x in a]
@@ -610,7 +634,7 @@ def main(run):
                                 [float(x) for x in selector.worst_point.reshape(-1)],
                                 [] if selector.extreme_points is None else
                                 [[int(x) for x in row] for row in selector.extreme_points]))
-        if selector is not None:
+        if selector is not None and not floats:
             case = {"kind": "nsga3-memory", "calls": mem_calls, "observed": mem_obs}
             note(case, True)
             # oracle: the remembered best/worst points are the extremes over everything seen so far
@@ -627,6 +651,10 @@ def main(run):
         nsga3_case()
     for _ in range(run.scale(60, 700)):
         nsga3_case(memory_calls=rng.randint(2, 4))
+    for _ in range(run.scale(80, 900)):
+        nsga3_case(floats=True)
+    for _ in range(run.scale(15, 150)):
+        nsga3_case(memory_calls=rng.randint(2, 3), floats=True)
 
     import time
     run.extra_cov["timing"] = {"generate_s": round(time.time() - run.t0, 1)}
